@@ -534,20 +534,25 @@ class ExecAll(Contract):
     pre = ExecCall.pre
 
     def verdict(self, s0, a, j):
-        item, n, _ = exec_items(s0, a.self.e)
-        return truthy(conv(s0, item(j), CB_FINAL(s0.g("ncb") + j)))
+        """verdict of the j-th guard (relative index): its expected verdict on the value of invocation c0+j"""
+        arr, h, t = exec_abs(s0, a.self.e)
+        return truthy(conv(s0, z3.Select(arr, h + j), CB_FINAL(s0.g("ncb") + j)))
 
     def _evaluated(self, s0, s, a, upto):
-        item, n, _ = exec_items(s0, a.self.e)
+        arr, h, t = exec_abs(s0, a.self.e)
         c0 = s0.g("ncb")
-        j = z3.Const("j!ea", Int)
-        return z3.ForAll([j], z3.Implies(z3.And(j >= 0, j < upto), z3.And(
-            z3.Select(s.g("cb_who"), c0 + j) == item(j), z3.Select(s.g("cb_ms"), c0 + j) == mstate(s0),
-            z3.Select(s.g("cb_ks"), c0 + j) == kw_state(s0, a.kwargs))))
+        p = z3.Const("p!ea", Int)
+        return z3.ForAll([p], z3.Implies(z3.And(p >= h, p < h + upto), z3.And(
+            z3.Select(s.g("cb_who"), c0 + (p - h)) == z3.Select(arr, p), z3.Select(s.g("cb_ms"), c0 + (p - h)) == mstate(s0),
+            z3.Select(s.g("cb_ks"), c0 + (p - h)) == kw_state(s0, a.kwargs))), patterns=[z3.Select(arr, p)])
 
     def _all_pass(self, s0, a, upto):
-        j = z3.Const("j!eap", Int)
-        return z3.ForAll([j], z3.Implies(z3.And(j >= 0, j < upto), self.verdict(s0, a, j)))
+        arr, h, t = exec_abs(s0, a.self.e)
+        c0 = s0.g("ncb")
+        p = z3.Const("p!eap", Int)
+        return z3.ForAll([p], z3.Implies(z3.And(p >= h, p < h + upto),
+                                         truthy(conv(s0, z3.Select(arr, p), CB_FINAL(c0 + (p - h))))),
+                         patterns=[z3.Select(arr, p)])
 
     def post(self, s0, s, a, r):
         item, n, _ = exec_items(s0, a.self.e)
@@ -573,8 +578,9 @@ class ExecAll(Contract):
         rl = z3.And(rtc(s0), locked(s0))
         f = dict(env_effect(s0, s))
         f["cb-log-prefix-kept"] = cb_log_prefix_kept(s0, s)
-        f["rtc:all-so-far-passed"] = z3.Implies(rl, z3.And(
-            s.g("ncb") == c0 + l.i, s.g("ng") == s0.g("ng"), self._evaluated(s0, s, a, l.i), self._all_pass(s0, a, l.i)))
+        f["rtc:one-record-per-guard"] = z3.Implies(rl, z3.And(s.g("ncb") == c0 + l.i, s.g("ng") == s0.g("ng")))
+        f["rtc:evaluated-in-order"] = z3.Implies(rl, self._evaluated(s0, s, a, l.i))
+        f["rtc:all-so-far-passed"] = z3.Implies(rl, self._all_pass(s0, a, l.i))
         f["lock-still-held"] = z3.Implies(rtc(s0), locked(s) == locked(s0))
         f["C04|none-swallowed-so-far"] = none_swallowed(s0, s)
         f["nothing-happens-before-the-first-guard"] = z3.Implies(l.i == 0, untouched(s0, s))
